@@ -78,6 +78,10 @@ def run(ctx):
     if not okp:
         raise vf.EngineError("TLAPS did not prove spec/proofs/Bracket_Proof.tla:\n" + outp[-2000:])
     ctx.notes.append("TLAPS: all %d obligations of proofs/Bracket_Proof.tla proved (the bracketing phase keeps its invariant and returns a bracketing triple for every objective)" % nobl)
+    okq, nobq, outq = vf.tlaps("Brent_Proof", ctx.work)
+    if not okq:
+        raise vf.EngineError("TLAPS did not prove spec/proofs/Brent_Proof.tla:\n" + outq[-2000:])
+    ctx.notes.append("TLAPS: all %d obligations of proofs/Brent_Proof.tla proved (Brent's bookkeeping keeps x in a never-growing bracket, x = the better of x and u, values ordered; for every position and value)" % nobq)
     for mode, module, marker, label in (("bracket", "Trace_Bracket", '"BStart"', "bracketing phase (hook Verif_Bracket)"),
                                         ("findmin", "Trace_FindMin", '"MStart"', "Find_Minimum/Find_Maximum, whole executions")):
         btrace = os.path.join(ctx.work, mode + ".ndjson")
